@@ -8,6 +8,8 @@ R10.3  destructive operations: an exact table; rmtree(out_dir) only where `force
        (truth-table of the branch test); ancestor __init__ loops stop at project_root
 R10.4  failures surface: no exception handler (or `with suppress(...)` around a write) on the generate() call graph swallows an error of an emit step
 R10.7  the in-place rewriting tools of the post-processor get generated files only, never a directory obtained by climbing
+R10.8  no function on the generation path that reads a file / directory / environment / URL is memoised per process                [= R9.13]
+R10.9  the non-force comparison leaves no generated file out (no filtered file list, no skip in the loop)                        [= R9.4]
 R10.5  temp cleanup is structural (`with tempfile.TemporaryDirectory()` encloses all temp generation) and the
        diff result raises before anything else happens
 """
@@ -243,6 +245,16 @@ def run(repo: Repo, rep: Report, tier: str) -> None:
     out_exists = [a for a in ex_atoms if a.split(".")[0] in rm_targets] or (ex_atoms if len(ex_atoms) == 1 else [])
     rep.require(bool(out_exists), "R10.3: the mode switch does not test <output package dir>.exists()")
     OUT = out_exists[0].split(".")[0] if out_exists else "out_dir"
+    # ... and it is the existence of the package directory itself that is tested, not of something inside it: an existing output that lacks
+    # that file (an interrupted generation, a package skeleton with hand-written modules) would count as "no output yet"
+    if out_exists and rm_targets and not any(out_exists[0] == f"{t}.exists()" for t in rm_targets if t):
+        rep.violation("R10.3", f"{gen.module.relpath}:ClientGenerator.generate mode switch tests the output package directory itself",
+                      f"{gen.fq}|mode-switch-tests-inner-path|{out_exists[0]}",
+                      f"compare-only mode is selected by `{out_exists[0]}`, not by the existence of the output package ({sorted(t for t in rm_targets if t)}): an existing tree for which "
+                      "that test is false is treated as a first run - it is removed and rewritten without force, and a differing output is reported as success", gen.loc(sw))
+        OUT = sorted(t for t in rm_targets if t)[0]
+    elif out_exists:
+        rep.ok("R10.3", f"{gen.module.relpath}:ClientGenerator.generate mode switch tests the output package directory itself", f"`{out_exists[0]}`", gen.loc(sw))
     # truth table: which branch runs for each valuation
     diff_body: Optional[List[ast.stmt]] = None
     bad_vals = []
@@ -390,6 +402,12 @@ def run(repo: Repo, rep: Report, tier: str) -> None:
 
     diff_coverage(repo, rep, "R10.6", gen, diff_body)
     rule_postprocess_targets_are_files(repo, rep, "R10.7")
+    # R10.8: "on a difference / on a failure it raises" needs the document as it is now: nothing read from outside is memoised      [= R9.13]
+    # R10.9: ... and a comparison that looks at every generated file                                                            [= R9.4]
+    from rules.c09 import rule_no_memoised_outside_reads, rule_show_diffs_compares_all
+
+    rule_no_memoised_outside_reads(repo, rep, "R10.8")
+    rule_show_diffs_compares_all(repo, rep, "R10.9")
 
     # ---------------------------------------------------------------- R10.2 / R10.3 sinks over the generation path
     live = repo.import_closure(["generator.client_generator"])
